@@ -231,8 +231,12 @@ class Check:
             'wall_s': round(wall, 2),
             'violations': len(printed),
         }
-        os.makedirs(os.path.join(VERIF, 'evidence'), exist_ok=True)
-        with open(os.path.join(VERIF, 'evidence', f'{self.pid}.json'), 'w') as f:
+        # evidence describes /repo itself; a run against a scratch tree (TORCHTREE_REPO, seeded-change detection)
+        # writes its record next to the replays (git-ignored) and never touches the committed evidence
+        evdir = os.environ.get('VERIF_EVIDENCE_DIR') or os.path.join(
+            VERIF, 'evidence' if os.path.realpath(REPO) == '/repo' else 'replays')
+        os.makedirs(evdir, exist_ok=True)
+        with open(os.path.join(evdir, f'{self.pid}.json'), 'w') as f:
             json.dump(ev, f, indent=1, default=str)
         status = 'VIOLATION' if printed else ('INCONCLUSIVE' if tr.inconclusive else 'HELD')
         print(f'[{self.pid}] {status} tier={self.tier} regions={tr.regions} queries={tr.queries} '
